@@ -181,13 +181,28 @@ def gates(ctx, R):
             return isinstance(cp[0], ast.Name) and cp[0].id in ext_vars or "extension" in norm(cp[0])
         return False
 
+    # only tag slots carry an extension in the command tables: a value that is not a tag cannot land in an extension-bound slot
+    from .c01 import _cna_names
+    ATYPE = _cna_names(R)[0]
+    ext_only_on_tags = True
+    for cname, ent in R.table().items():
+        for slot in ent.get("args_definition") or []:
+            if isinstance(slot, dict) and slot.get("extension") and slot.get("type") != ["tag"]:
+                ext_only_on_tags = False
+
+    def not_a_tag(fc):
+        e, pol = fact_atom(fc)
+        cp = cmp_parts(e)
+        return bool(ext_only_on_tags and cp and cp[1] in ("Eq", "NotEq") and norm(cp[0]) == ATYPE
+                    and const_value(ctx.program, cna, cp[2]) == "tag" and ((cp[1] == "Eq") != pol))
+
     nopt = 0
     for st in stores:
         for nd in cfgc.nodes_for(st):
             if cfgc.guarded(nd, required_true):
                 continue  # required slots carry no extension (T2)
             nopt += 1
-            if cfgc.guarded(nd, gate3):
+            if cfgc.guarded(nd, lambda fc: gate3(fc) or not_a_tag(fc)):
                 ctx.holds("E3", "%s: optional store %s behind the slot-extension gate" % (cna.qualname, norm(st)[:50]))
             else:
                 ctx.violation("E3", cna, "tag-gate", "an optional (tagged) argument is recorded on a path that did not establish that the slot's "
